@@ -301,6 +301,22 @@ class _OsShim:
         return SymBytes.fresh_chunk("urandom_%d" % len(c.table("urandom")), n)
 
 
+class _OperatorShim:
+    """operator.index() is the identity on integer proxies (it is used as a type guard before int.to_bytes)"""
+    def __getattr__(self, name):
+        import operator as _op
+        return getattr(_op, name)
+
+    @staticmethod
+    def index(x):
+        import operator as _op
+        if isinstance(x, SymInt):
+            return x
+        if isinstance(x, SymBool):
+            return SymInt(T(x))
+        return _op.index(x)
+
+
 def instrument(mod):
     mod.__sym_mod__ = sym_mod
     mod.__sym_join__ = sym_join
@@ -323,3 +339,5 @@ def instrument(mod):
         mod.json = _JsonShim
     if hasattr(mod, "os"):
         mod.os = _OsShim()
+    if hasattr(mod, "operator"):
+        mod.operator = _OperatorShim()
